@@ -32,12 +32,12 @@ def run(ctx):
                        "pyins.filters.run_feedforward_filter (frame of model objects)")
     ctx.trust("np.linalg.solve(I, b) == b bit-exactly (LAPACK; bounded-checked natively here)", "z3", "C02 fold lemma, C09 loop contract")
     ctx.assume("clause (b) (second-order agreement with the feedforward filter) is NOT decided: bounded stand-in only")
-    _no_data_branch_unreachable(ctx, py)
-    _correct_increments_identity(ctx, py)
-    _frame_models(ctx, py)
-    _trace_runs(ctx, py)
-    _standin_a_c(ctx, py)
-    _standin_b(ctx, py)
+    ctx.guard(_no_data_branch_unreachable, ctx, py)
+    ctx.guard(_correct_increments_identity, ctx, py)
+    ctx.guard(_frame_models, ctx, py)
+    ctx.guard(_trace_runs, ctx, py)
+    ctx.guard(_standin_a_c, ctx, py)
+    ctx.guard(_standin_b, ctx, py)
 
 
 # -----------------------------------------------------------------------------------------------
